@@ -1245,7 +1245,7 @@ func main() {
 			if tier == "thorough" {
 				return 40000
 			}
-			return 1600
+			return 1200
 		},
 		Run: run,
 		Floors: map[string]int64{
